@@ -21,7 +21,7 @@ CFG = {
     "rule": "cases = all 73 formats x sizes {1x1 .. 257x129, 1024x16, 16x1024, 65536x1, 1x65536, 16385x3} x "
             "{full, interior rect, full-width strip, far-corner pixel} x limits {0, 1, 1 KiB, 64 KiB, need-1, need, "
             "default}; 17 representatives at 1024^2 (thorough 2048^2, 4096^2) x {need-1, need, default}; 4096x4096 "
-            "with the default limit (quick: NV12, P010, P016, R8, BC1; thorough: all formats, 3 calls each); PRNG "
+            "with the default limit for all 73 formats (thorough: 3 calls each); PRNG "
             "sizes/rects/limits. Comparison is a refinement: observed need <= model need, measured peak <= bytes the "
             "model hands to the allocator + 4096, same result (an implementation that needs less may succeed where "
             "the model refuses). Non-trivial = not bad-case; distinct = distinct case lines.",
